@@ -12,11 +12,16 @@ package lispsim
 
 import (
 	"context"
+	"io"
 	"os"
+	"reflect"
 	"strconv"
 	"strings"
+	"unsafe"
 
+	"github.com/fatih/color"
 	"github.com/jig/lisp"
+	"github.com/jig/lisp/debugger"
 	"github.com/jig/lisp/debuggertypes"
 	"github.com/jig/lisp/lib/call"
 	"github.com/jig/lisp/simhook"
@@ -63,6 +68,20 @@ var c18Templates = []string{
 	`(do (trace! :before) (undefined-fn N))`,
 	`(do (trace! :before) (throw (list :uncaught N)))`,
 	`(let [a N] (do (trace! a) (nth [1 2] a)))`,
+	// map and vector literals with non-constant values in tail position (one effect per literal: Go's map
+	// iteration order must not matter)
+	`(do (trace! 1) {:n (trace! N)})`,
+	`(let [a N] {:a a :b (+ a 1) :c [a (* a 2)]})`,
+	`(if true {:k (trace! N)} nil)`,
+	`((fn [x] {:v (+ x N) :w [x]}) 2)`,
+	`(try (throw N) (catch e {:caught (trace! e)}))`,
+	`(do (trace! 0) [(trace! N) (+ N 1)])`,
+	// forms with more than ten items
+	`(str 1 2 3 4 5 6 7 8 9 10 N 12)`,
+	`(do (trace! 1) (trace! 2) (trace! 3) (trace! 4) (trace! 5) (trace! 6) (trace! 7) (trace! 8) (trace! 9) (trace! 10) (trace! 11) N)`,
+	`((fn [& xs] (count xs)) 1 2 3 4 5 6 7 8 9 10 11 N)`,
+	`(list 1 2 3 4 5 6 7 8 9 10 (trace! N) 12 13)`,
+	`(try (trace! 1) (trace! 2) (trace! 3) (trace! 4) (trace! 5) (trace! 6) (trace! 7) (trace! 8) (trace! 9) (throw N) (catch e (trace! (list :caught e))) (finally (trace! :fin)))`,
 }
 
 var c18Cmds = []debuggertypes.Command{debuggertypes.NoOp, debuggertypes.Next, debuggertypes.In, debuggertypes.Out}
@@ -112,6 +131,10 @@ type c18Exec struct {
 // c18Once runs src in a fresh environment, with the stepper answering cmd(i) at its i-th consultation
 // (nil: no stepper).
 func c18Once(ast func() types.MalType, plan c03Plan, cmd func(i int) debuggertypes.Command, spy *stepSpy) c18Exec {
+	return c18OnceWith(ast, plan, cmd, spy, false)
+}
+
+func c18OnceWith(ast func() types.MalType, plan c03Plan, cmd func(i int) debuggertypes.Command, spy *stepSpy, shipped bool) c18Exec {
 	s := NewSim(&Tape{Replay: true}, SimCfg{StarveID: -1})
 	h := &Harness{S: s, Canon: canon03}
 	e := NewEnv()
@@ -126,7 +149,15 @@ func c18Once(ast func() types.MalType, plan c03Plan, cmd func(i int) debuggertyp
 	}
 	var ex c18Exec
 	lisp.SimResetStepper()
-	if cmd != nil {
+	if shipped {
+		inner := shippedDebugger(e)
+		lisp.Stepper = func(a types.MalType, ns types.EnvType) debuggertypes.Command {
+			spy.consults++
+			spy.pending, spy.pendingAst, spy.pendingEnv = true, canon(a), ns
+			return inner(a, ns)
+		}
+		simhook.Install(spy)
+	} else if cmd != nil {
 		n := 0
 		lisp.Stepper = func(a types.MalType, ns types.EnvType) debuggertypes.Command {
 			spy.consults++
@@ -163,6 +194,40 @@ func c18Once(ast func() types.MalType, plan c03Plan, cmd func(i int) debuggertyp
 
 var devNull *os.File
 
+// shippedDebugger returns the Stepper of the debugger package's own engine, put into its "run to the
+// end and trace" mode (what the F7 key selects: stop=false, trace=true) by writing its two unexported
+// flags, since no key can be pressed here. In that mode it prints a trace line for every form of the
+// module being debugged and answers no-op: real debugger code running as the callback.
+var shippedDeb *debugger.Debugger
+
+// initShippedDebugger must run outside any synctest bubble: Engine() opens the keyboard, which waits on
+// real time and on package-level channels.
+func initShippedDebugger() {
+	if shippedDeb != nil {
+		return
+	}
+	color.Output = io.Discard
+	color.NoColor = true
+	saved := os.Stdout
+	if dn, err := os.OpenFile(os.DevNull, os.O_WRONLY, 0); err == nil {
+		os.Stdout = dn
+		defer func() { os.Stdout = saved; dn.Close() }()
+	}
+	shippedDeb = debugger.Engine("c18prog", NewEnv())
+	v := reflect.ValueOf(shippedDeb).Elem()
+	for name, val := range map[string]bool{"stop": false, "trace": true, "replOnEnd": false} {
+		f := v.FieldByName(name)
+		*(*bool)(unsafe.Pointer(f.UnsafeAddr())) = val
+	}
+}
+
+func shippedDebugger(ns types.EnvType) func(types.MalType, types.EnvType) debuggertypes.Command {
+	if shippedDeb == nil {
+		panic("c18: shipped debugger not initialised (initShippedDebugger must run before the first bubble)")
+	}
+	return shippedDeb.Stepper
+}
+
 func (c18) Run(tp *Tape, opt RunOpt) *RunOut {
 	out := &RunOut{prop: "C18", Stats: map[string]int64{}}
 	// the evaluator prints ANSWER:/ERROR: lines on "next": debugger output, not a program effect
@@ -193,7 +258,13 @@ func (c18) Run(tp *Tape, opt RunOpt) *RunOut {
 		src = "(list " + strings.Join(parts, " ") + ")"
 		out.Stats["programs:template"]++
 	}
-	mk := func() types.MalType { return mustRead(src) }
+	mk := func() types.MalType {
+		ast, err := lisp.READ(src, types.NewCursorFile("c18prog"), nil)
+		if err != nil {
+			panic("c18: cannot read generated program: " + src + ": " + err.Error())
+		}
+		return ast
+	}
 	ref := c18Once(mk, plan, nil, nil)
 	if ref.panic != "" {
 		// not a stepper matter (and not expected): report it under its own clause
@@ -253,6 +324,33 @@ func (c18) Run(tp *Tape, opt RunOpt) *RunOut {
 	}
 	tail := tp.Draw(LaneFault, 4)
 	check(cmds, tail, "seeded")
+	// 1b. the debugger package's own engine as the callback (headless trace mode)
+	if len(out.Violations) == 0 {
+		spy := &stepSpy{}
+		ex := c18OnceWith(mk, plan, nil, spy, true)
+		out.Stats["shipped_debugger_runs"]++
+		out.Stats["stepper_consultations"] += spy.consults
+		dviol := func(clause, sig, detail string) {
+			out.Violations = append(out.Violations, Violation{"C18." + clause, sig, detail + "\n  program: " + src + "\n  fault plan: " + planStr(plan) + "\n  stepper: the debugger package's engine in its run-to-the-end-and-trace mode"})
+		}
+		if ex.panic != "" {
+			dviol("panic", normPanic(ex.panic), "EVAL panicked with the shipped debugger installed: "+ex.panic)
+		} else if ex.result != ref.result || ex.errText != ref.errText {
+			dviol("result", "result-differs-under-shipped-debugger", "with the shipped debugger EVAL gave\n    "+ex.result+" "+ex.errText+"\n  without it\n    "+ref.result+" "+ref.errText)
+		}
+		if strings.Join(ex.trace, " ") != strings.Join(ref.trace, " ") {
+			dviol("effects", "trace-differs-under-shipped-debugger", "with the shipped debugger the program traced\n    "+strings.Join(ex.trace, " ")+"\n  without it\n    "+strings.Join(ref.trace, " "))
+		}
+		if spy.mismatch != "" {
+			dviol("callback-arguments", "form-or-scope-mismatch", spy.mismatch)
+		}
+		// the same program must still compute the same afterwards, without any stepper (the trace must not
+		// have damaged the program text)
+		again := c18Once(mk, plan, nil, nil)
+		if again.result != ref.result || strings.Join(again.trace, " ") != strings.Join(ref.trace, " ") {
+			dviol("result", "program-changed-by-debugging", "after a debugged run the same source computes\n    "+again.result+"\n  instead of\n    "+ref.result)
+		}
+	}
 	// 2. every command sequence up to length 4 (thorough: 5), then no-op, for this program, now and then
 	maxLen, den := 4, 12
 	if opt.Tier == "thorough" {
